@@ -76,10 +76,33 @@ type Pool struct {
 	New  func() any
 	real sync.Pool
 	idle []any
+
+	registered bool
+}
+
+// pools seen in scheduler mode (registration order = first use order)
+var pools []*Pool
+
+func (p *Pool) register() {
+	if !p.registered {
+		p.registered = true
+		pools = append(pools, p)
+	}
+}
+
+// AllPools returns the pools used so far under a scheduler.
+func AllPools() []*Pool { return pools }
+
+// ResetPools empties every explicit idle list (pristine pool state).
+func ResetPools() {
+	for _, p := range pools {
+		p.idle = nil
+	}
 }
 
 func (p *Pool) Get() any {
 	if h := sched.Active; h != nil {
+		p.register()
 		h.Point("pool.get", p)
 		i := h.PoolGet(p, len(p.idle))
 		if i < 0 || i >= len(p.idle) {
@@ -103,6 +126,7 @@ func (p *Pool) Get() any {
 
 func (p *Pool) Put(x any) {
 	if h := sched.Active; h != nil {
+		p.register()
 		h.Point("pool.put", p)
 		p.idle = append(p.idle, x)
 		return
